@@ -14,10 +14,13 @@ Stated in full but NOT proved in general (`ChainCorrect`): that `decompose` of a
 namespace Gaftools.C06
 open Gaftools.Gfa Gaftools.Algo Gaftools.Order Gaftools.Spec.Order
 
-/-- FULL statement (kept visible; not proved) -/
+/-- FULL statement of the chain clauses of C06 for the model of `decompose_and_order` (proved in `Props/C06f.lean`).
+    Node ids hold no tab — they are fields of tab-separated lines; without that hypothesis a node named like a bubble
+    ("\tbubble0") would be confused with the bubble in the scaffold graph, so the statement would be false. -/
 def ChainCorrect : Prop :=
   ∀ (nb : V → List V) (comp : List V) (so : V → Option Int) (sn : V → Option String) (l : Local),
     Gaftools.Spec.Graph.Undirected nb comp → comp.Nodup → Gaftools.Spec.Graph.connectedB nb comp = true →
+    (∀ v ∈ comp, '\t' ∉ v.toList) →
     decompose nb comp so sn = .ok l → 2 ≤ l.aps.length →
     chainSpecB nb comp so (fun v => (l.order.find? (·.1 == v)).map (fun x => ((x.2.1 : Int), (x.2.2 : Int)))) 0 = true
 
